@@ -426,7 +426,7 @@ func init() {
 	register(&PropSpec{
 		ID:         "C19",
 		Level:      "proof",
-		Decided:    "instances share no mutable library memory: every package-level variable of the 7 library packages is an obligation, discharged when no store, map update, append/copy destination or write-through call rooted at it is reachable outside package initialisers; types instantiated only at init time (shared singletons) have no receiver-mutating method; parser/decoder inputs are only read (R16d); no goroutine is started and no sync primitive is relied upon.",
+		Decided:    "instances share no mutable library memory: every package-level variable of the 7 library packages is an obligation, discharged when no store, map update, append/copy destination or write-through call rooted at it is reachable outside package initialisers; types instantiated only at init time (shared singletons) have no receiver-mutating method; parser/decoder inputs are only read (R16d); no goroutine is started and no sync primitive is relied upon. Unfolder objects (cached per type in registries that user-registered unfolders share across Unfolder instances) are never written by methods that run at event time (R23 SHARED-UNFOLDER).",
 		NotDecided: "result equality under contention is a consequence of the absence of shared mutable state, not separately observed; user-supplied visitors, writers, folders and targets are assumed not to be shared; writes performed through reflect.Value setters on values derived from globals are only recognised when the Value is built from a global in the same function.",
 		Assumptions: []string{
 			"io.Writer.Write and user visitors do not modify the byte slices handed to them (io.Writer contract, StringRefVisitor documentation)",
